@@ -55,6 +55,17 @@ def run(ctx):
             if v < (1 << (8 * w)):
                 emb.append({"fam": "aml", "tree": {"t": "Package", "ch": [{"t": "Int", "ty": ty, "v": vlib.le(v, w)}]}, "arities": []})
                 emb.append({"fam": "aml", "tree": {"t": "Int", "ty": ty, "v": vlib.le(v, w)}, "arities": []})
+    # resource templates: the BufferSize operand is the integer constant of the payload; 5 / 6 descriptors of 46 bytes
+    # around 255/256 bytes and 1424 / 1425 / 1426 of them around 65535/65536
+    g = amlgen.G(rng)
+
+    def q8():
+        d = g.descriptor("AddrSpace")
+        while d["w"] != 8:
+            d = g.descriptor("AddrSpace")
+        return d
+    for n in (0, 1, 5, 6, 88, 89, 90, 1424, 1425, 1426, 1500):
+        emb.append({"fam": "aml", "tree": {"t": "ResourceTemplate", "ch": [q8() for _ in range(n)]}, "arities": [], "tag": "template/%d" % n})
     if th:
         # u32 values by digest tabulation through u32, u64 and usize: every chunk of 65536 values below 2^24, every
         # 64th chunk above, and the chunks around the sign and top boundaries
